@@ -969,7 +969,8 @@ void WaitBody(const WaitSpec& s, WaitResult& r, Call call) {
   WaitEpilogue(s);
 }
 
-constexpr std::chrono::milliseconds kTimeout{2};
+// 2 ms when the futures are never fulfilled, long when another thread releases the wait (machine load)
+extern std::chrono::milliseconds g_timeout;
 
 template <int FN, class... A>
 int CallWait(A&&... a) {
@@ -977,9 +978,9 @@ int CallWait(A&&... a) {
     yaclib::Wait(std::forward<A>(a)...);
     return 1;
   } else if constexpr (FN == 1) {
-    return yaclib::WaitFor(kTimeout, std::forward<A>(a)...) ? 1 : 0;
+    return yaclib::WaitFor(g_timeout, std::forward<A>(a)...) ? 1 : 0;
   } else {
-    return yaclib::WaitUntil(std::chrono::steady_clock::now() + kTimeout, std::forward<A>(a)...) ? 1 : 0;
+    return yaclib::WaitUntil(std::chrono::steady_clock::now() + g_timeout, std::forward<A>(a)...) ? 1 : 0;
   }
 }
 
@@ -1422,6 +1423,27 @@ World Prom(Ctx& c, const Src& s) {
 }
 
 #if YACLIB_CORO != 0
+// operand of `co_await x`: futures and tasks are consumed, shared futures are not
+template <class V>
+Fut<V>&& CoArg(Fut<V>& x) {
+  return std::move(x);
+}
+template <class V>
+FutOn<V>&& CoArg(FutOn<V>& x) {
+  return std::move(x);
+}
+template <class V>
+Tsk<V>&& CoArg(Tsk<V>& x) {
+  return std::move(x);
+}
+template <class V>
+const Sh<V>& CoArg(Sh<V>& x) {
+  return x;
+}
+template <class V>
+const ShOn<V>& CoArg(ShOn<V>& x) {
+  return x;
+}
 // awaits world alternative I of w (built just before) in the given mode; a macro because co_await must be in the body
 #  define C20_AWAIT_ALT(I)                                                    \
     case I: {                                                                 \
@@ -1429,11 +1451,7 @@ World Prom(Ctx& c, const Src& s) {
       if (s->amode == 0) {                                                    \
         co_await yaclib::Await(x);                                            \
       } else {                                                                \
-        if constexpr (I == 7 || I == 8 || I == 9 || I == 10) {                \
-          (void)co_await x;                                                   \
-        } else {                                                              \
-          (void)co_await std::move(x);                                        \
-        }                                                                     \
+        (void)co_await CoArg(x);                                              \
       }                                                                       \
       break;                                                                  \
     }
@@ -1456,7 +1474,6 @@ World Prom(Ctx& c, const Src& s) {
           Die("coroutine: nothing to await");     \
       }                                           \
     }                                             \
-    ++c->calls;                                   \
     if (s->res == sErr) {                         \
       co_return yaclib::StopTag{};                \
     }                                             \
@@ -1868,7 +1885,10 @@ void FulfilLate(void* p) {
   }
 }
 
+std::chrono::milliseconds g_timeout{2};
+
 void WaitPrologue(const WaitSpec& s) {
+  g_timeout = std::chrono::milliseconds{s.timing == 2 ? 2 : 20000};
   PrepareInputs(s.ik, 0, s.n);
   switch (s.timing) {
     case 0:
